@@ -73,7 +73,19 @@ structure Waiter where
   hasReq : Bool
   resolved : Option Ev := none
   timedOut : Bool := false
+  /-- attempt record of the invocation that suspended in the wait (its replay continues it) -/
+  attempts : Nat := 0
+  firstAt : Option Int := none
+  lastExc : Option Nat := none
+  lastFailedAt : Option Int := none
+  rc : RC := []
 deriving DecidableEq, Repr
+
+/-- `_replay_attempt`: the attempt that replays a step suspended in `ctx.wait_for_event`;
+it carries the retry counters and recovery counts the invocation had when it added the waiter -/
+def Waiter.replay (w : Waiter) : Attempt :=
+  { ev := w.ev, attempts := some w.attempts, firstAt := w.firstAt, lastExc := w.lastExc,
+    lastFailedAt := w.lastFailedAt, rc := w.rc }
 
 /-- a dict `buffer_id ↦ [events]` in insertion order -/
 abbrev Collected := List (Nat × List Ev)
@@ -279,7 +291,7 @@ def resolveLoop (ev : Ev) (step nw : Nat) (now : Int) :
   | done, w :: rest, ss, cmds, h =>
     if waiterMatches w ev then
       let w' := { w with resolved := some ev }
-      let r := addOrEnqueue { ev := w.ev } step { ss with waiters := done ++ w' :: rest } nw now
+      let r := addOrEnqueue w.replay step { ss with waiters := done ++ w' :: rest } nw now
       resolveLoop ev step nw now (done ++ [w']) rest r.1 (cmds ++ r.2) true
     else resolveLoop ev step nw now (done ++ [w]) rest ss cmds h
 
@@ -331,6 +343,13 @@ def processAddEvent (cfg : Cfg) (att : Attempt) (target : Option Nat) (st : Stat
   (a2.st, a2.cmds ++ unhandledCmds cfg att target a2)
 
 /-! ### `_process_step_result_tick` -/
+
+/-- the waiter the `AddWaiter` branch records for the execution `x`: besides the replay event it
+keeps the attempt record of `x` -/
+def newWaiter (x : InProg) (wid ty : Nat) (req : Option Nat) : Waiter :=
+  { wid := wid, ev := x.ev, waitTy := ty, req := req, hasReq := req.isSome,
+    attempts := x.attempts, firstAt := some x.firstAt, lastExc := x.lastExc,
+    lastFailedAt := x.lastFailedAt, rc := x.rc }
 
 structure ResAcc where
   st : State
@@ -419,8 +438,7 @@ def applyRes (cfg : Cfg) (pol : Policy) (step : Nat) (tickEv : Ev) (didComplete 
     else acc
   | .addWaiter wid waiterEv req timeout ty =>
     let ss := acc.st.workers step
-    let w : Waiter :=
-      { wid := wid, ev := acc.exec.ev, waitTy := ty, req := req, hasReq := req.isSome }
+    let w : Waiter := newWaiter acc.exec wid ty req
     if ss.waiters.any (fun x => x.wid == wid) then
       -- replace the first waiter with this id
       let ws := modifyFirst (fun x => x.wid == wid) (fun _ => w) ss.waiters
@@ -474,7 +492,7 @@ def processWaiterTimeout (cfg : Cfg) (step waiter : Nat) (st : State) (now : Int
     if w.resolved.isSome then (st, [])
     else
       let ws := modifyFirst (fun x => x.wid == waiter) (fun x => { x with timedOut := true }) ss.waiters
-      let r := addOrEnqueue { ev := w.ev } step { ss with waiters := ws } (cfg.nw step) now
+      let r := addOrEnqueue w.replay step { ss with waiters := ws } (cfg.nw step) now
       (st.set step r.1, r.2)
 
 def activeSteps (cfg : Cfg) (st : State) : List Nat :=
